@@ -2,7 +2,7 @@
 They depend on the specification only (never on /repo), are cached by spec digest and can never
 produce a VIOLATION: a failing model is a tool error (the models describe the repaired tree)."""
 import os, json
-from tlc import run_tlc, tlc_ok, spec_digest, WORK, ToolError
+from tlc import atomic_dump, run_tlc, tlc_ok, spec_digest, WORK, ToolError
 import stimuli
 
 MODELS = {
@@ -70,7 +70,7 @@ def run_model(name, tier, negative=None):
         res["found_deviation"] = True
     elif not tlc_ok(out):
         raise ToolError(f"design-level model {tag} ({tier}) fails:\n{out[-3000:]}")
-    json.dump(res, open(cache, "w"))
+    atomic_dump(res, cache)
     return res
 
 
